@@ -95,6 +95,7 @@ func inRanges(p uint16, rs []oracle.PortRange) bool {
 
 // c03peer builds the reaction to one probe.
 type c03peer struct {
+	jumbo int // ICMP answers longer than the capture length
 	s      *c03spec
 	rng    *rand.Rand
 	link   oracle.Link
@@ -130,6 +131,12 @@ func (p *c03peer) ipSpec(src [4]byte, proto uint8) oracle.IPSpec {
 }
 
 func (p *c03peer) tcpFrame(src [4]byte, sport, dport uint16, flags uint16) []byte {
+	return p.tcpFrameLen(src, sport, dport, flags, 0)
+}
+
+// tcpFrameLen: payload > 0 asks for a segment with that many payload bytes (jumbo frames / segments merged by
+// receive offload are longer than the scanner's capture length; their headers are inside the captured part)
+func (p *c03peer) tcpFrameLen(src [4]byte, sport, dport uint16, flags uint16, payload int) []byte {
 	ts := oracle.TCPSpec{SrcPort: sport, DstPort: dport, Seq: p.rng.Uint32(), Ack: p.rng.Uint32(), Flags: flags, Window: uint16(p.rng.Intn(65536)), DataOff: -1}
 	switch p.rng.Intn(4) {
 	case 0:
@@ -146,6 +153,10 @@ func (p *c03peer) tcpFrame(src [4]byte, sport, dport uint16, flags uint16) []byt
 	case 1:
 		ts.Payload = make([]byte, 1300)
 	}
+	if payload > 0 {
+		ts.Payload = make([]byte, payload)
+		p.rng.Read(ts.Payload)
+	}
 	return p.wrap(oracle.BuildIPv4(p.ipSpec(src, oracle.ProtoTCP), oracle.BuildTCP(src, p.srcIP, ts)))
 }
 
@@ -153,6 +164,10 @@ func (p *c03peer) icmpFrame(src [4]byte, typ, code uint8, embed []byte) (frame [
 	pl := embed
 	if pl == nil {
 		pl = make([]byte, []int{0, 8, 48, 1400}[p.rng.Intn(4)])
+		if p.rng.Intn(12) == 0 {
+			pl = make([]byte, 1500+p.rng.Intn(5000)) // longer than the capture length
+			p.jumbo++
+		}
 	}
 	s := p.ipSpec(src, oracle.ProtoICMP)
 	return p.wrap(oracle.BuildIPv4(s, oracle.BuildICMP(typ, code, uint16(p.rng.Intn(65536)), 1, pl))), s.TTL
@@ -226,7 +241,11 @@ func (p *c03peer) react(d *oracle.Decoded, probe []byte, dst uint32, dport uint1
 			if !syn && p.rng.Intn(2) == 0 {
 				f = []uint16{oracle.FlagRST, oracle.FlagRST | oracle.FlagACK, 0, oracle.FlagFIN | oracle.FlagPSH | oracle.FlagURG, 0x1ff}[p.rng.Intn(5)]
 			}
-			add("reply", true, recTCP(srcS, dport, flagsStr(f)), p.tcpFrame(src, dport, sport, f))
+			if p.rng.Intn(6) == 0 {
+				add("reply-jumbo", true, recTCP(srcS, dport, flagsStr(f)), p.tcpFrameLen(src, dport, sport, f, 1500+p.rng.Intn(5000)))
+			} else {
+				add("reply", true, recTCP(srcS, dport, flagsStr(f)), p.tcpFrame(src, dport, sport, f))
+			}
 		case k == 3: // every other flag combination
 			f := uint16(p.rng.Intn(512))
 			shaped := !syn || f == oracle.FlagSYN|oracle.FlagACK
@@ -530,6 +549,7 @@ func scenC03(run *vlab.Run, sx, tmp string) {
 			for c, n := range byClass {
 				run.Count("class:"+c, int64(n))
 			}
+			run.Count("icmp_answers_longer_than_capture_length", int64(peer.jumbo))
 			if s.NRanges > 200 {
 				run.Count("c03_chunked_runs", 1)
 			}
